@@ -628,6 +628,20 @@ func c10Views(tier string) []c10View {
 			views = append(views, mkView(fmt.Sprintf("E7/%d", i), lines, outs, r.want, true))
 		}
 	}
+	// E8: unions and concatenations with an operand that evaluates to the empty collection (there is no literal
+	// for it: it comes from a filter that matches nothing), the other operand written with duplicates / unsorted
+	for i, sh := range []shadow{
+		{[]string{`let e = {1, 2} where(. > 5)`, `o0 = e | {3, 1, 3}`, `o1 = {3, 1, 3} | e`, `o2 = (e | {3, 1, 3}) count`, `o3 = e | e`, `o4 = e count`},
+			[]string{"o0", "o1", "o2", "o3", "o4"}, []string{"{1,3}", "{1,3}", "2", "{}", "0"}},
+		{[]string{`let e = {"a", "b"} where(. == "zz")`, `o0 = e | {"b", "a", "b"}`, `o1 = {"b", "a", "b"} | e`, `o2 = (e | {"b", "a", "b"}) count`},
+			[]string{"o0", "o1", "o2"}, []string{`{"a","b"}`, `{"a","b"}`, "2"}},
+		{[]string{`let e = ["x", "y"] where(. == "zz")`, `o0 = e | ["b", "a", "b"]`, `o1 = ["b", "a", "b"] | e`, `o2 = (e | ["b", "a", "b"]) count`},
+			[]string{"o0", "o1", "o2"}, []string{`["b","a","b"]`, `["b","a","b"]`, "3"}},
+		{[]string{`let e = {1, 2} where(. > 5)`, `let s = {{1, 2}, {2, 3}} flatten(. + 0)`, `o0 = e | s`, `o1 = s | e`, `o2 = (e | s) count`},
+			[]string{"o0", "o1", "o2"}, []string{"{1,2,3}", "{1,2,3}", "3"}},
+	} {
+		views = append(views, mkView(fmt.Sprintf("E8/%d", i), sh.lines, sh.outs, sh.want, true))
+	}
 	// E4: nested transforms over list / set / map with each result type
 	for i, s := range []shadow{
 		{[]string{"o0 = [1, 2, 2] -> <sequence of int> (x:", "  v = x * 2", ")"}, []string{"o0"}, []string{"[(v:2),(v:4),(v:4)]"}},
